@@ -29,6 +29,10 @@ type immWorld struct {
 	inv      *invocation.Token
 	loader   mapLoader
 	keys     []string
+	// a second invocation with a two-link chain whose leaf delegation's policy is a prefix (spare capacity) of a
+	// statement array shared with `other`
+	inv2         *invocation.Token
+	leaf2, other *delegation.Token
 }
 
 var immKeyNames = []string{"zeta", "alpha", "mid", "beta", "omega"}
@@ -99,6 +103,37 @@ func newImmWorld(w *world, order []int, decoded bool) (*immWorld, error) {
 		}
 	}
 	iw.slicePol = d2.Policy()
+	// the two-link chain I -> M -> A; the leaf's policy shares its backing array with `other`
+	mid, err := w.principal("M")
+	if err != nil {
+		return nil, err
+	}
+	sharedSrc, _ := policy.FromDagJson(`[[">=", ".alpha", 0], ["like", ".zeta", "*"], ["==", ".never?", 1]]`)
+	shared := make(policy.Policy, 0, 8)
+	shared = append(shared, sharedSrc...)
+	rootPol, _ := policy.FromDagJson(`[["==", ".nope?", 1], ["==", ".nope2?", 2]]`)
+	root2, err := delegation.Root(iw.iss.id, mid.id, command.MustParse("/x"), rootPol)
+	if err != nil {
+		return nil, err
+	}
+	if iw.leaf2, err = delegation.New(mid.id, iw.aud.id, command.MustParse("/x"), shared[:1], delegation.WithSubject(iw.iss.id)); err != nil {
+		return nil, err
+	}
+	if iw.other, err = delegation.New(iw.iss.id, mid.id, command.MustParse("/x"), shared[:2], delegation.WithSubject(iw.iss.id)); err != nil {
+		return nil, err
+	}
+	_, rid, err := root2.ToSealed(iw.iss.priv)
+	if err != nil {
+		return nil, err
+	}
+	_, lid, err := iw.leaf2.ToSealed(mid.priv)
+	if err != nil {
+		return nil, err
+	}
+	iw.loader[rid], iw.loader[lid] = root2, iw.leaf2
+	if iw.inv2, err = invocation.New(iw.aud.id, iw.iss.id, command.MustParse("/x/y"), []cid.Cid{lid, rid}, iopts...); err != nil {
+		return nil, err
+	}
 	return iw, nil
 }
 
@@ -122,6 +157,7 @@ func (iw *immWorld) snapshot() string {
 			s = append(s, "t", t.UnixNano())
 		}
 	}
+	s = append(s, "shared-policies", iw.leaf2.Policy().String(), len(iw.leaf2.Policy()), iw.other.Policy().String(), len(iw.other.Policy()))
 	_, f1, _ := fieldsOf(iw.inv)
 	_, f2, _ := fieldsOf(iw.dlg)
 	for _, f := range []map[string]ipld.Node{f1, f2} {
@@ -378,6 +414,27 @@ var immOps = []immOp{
 		}
 		c := iw.dlg.Command()
 		return fmt.Sprint(iw.inv.Issuer().String(), err, len(kb), c.Covers(iw.inv.Command()), iw.inv.Command().Covers(c), c.Segments(), c.Join("z").String(), iw.inv.Command().Segments())
+	}},
+	{"inv2.ExecutionAllowed (two links, leaf policy with spare capacity)", func(iw *immWorld) string {
+		return fmt.Sprint(iw.inv2.ExecutionAllowed(iw.loader), iw.inv2.ExecutionAllowedWithArgsHook(iw.loader, func(a args.ReadOnly) (*args.Args, error) { return a.WriteableClone(), nil }))
+	}},
+	{"streaming seal into a failing writer, then a good one", func(iw *immWorld) string {
+		// a failed streaming seal / unseal must leave nothing behind: the next one reports the CID of its own bytes
+		_, e1 := iw.dlg.ToSealedWriter(&faultWriter{failAt: 2}, iw.iss.priv)
+		sealed, _, _ := iw.dlg.ToSealed(iw.iss.priv)
+		_, _, e2 := delegation.FromSealedReader(&faultReader{data: sealed, at: len(sealed) / 2, kind: "err", shape: "n", chunk: "one"})
+		var buf bytes.Buffer
+		id, e3 := iw.dlg.ToSealedWriter(&buf, iw.iss.priv)
+		okW := e3 == nil && bytes.Equal(id.Bytes(), manualCid(buf.Bytes()))
+		_, id2, e4 := delegation.FromSealedReader(bytes.NewReader(buf.Bytes()))
+		okR := e4 == nil && bytes.Equal(id2.Bytes(), manualCid(buf.Bytes()))
+		return fmt.Sprint(e1 != nil, e2 != nil, okW, okR)
+	}},
+	{"streaming seal reports the CID of its bytes", func(iw *immWorld) string {
+		var buf bytes.Buffer
+		id, err := iw.inv.ToSealedWriter(writeOnly{&buf}, iw.aud.priv)
+		_, id2, err2 := invocation.FromSealedReader(bytes.NewReader(buf.Bytes()))
+		return fmt.Sprint(err, err2, bytes.Equal(id.Bytes(), manualCid(buf.Bytes())), id == id2)
 	}},
 	{"accessors", func(iw *immWorld) string {
 		return fmt.Sprint(iw.inv.Issuer(), iw.inv.Subject(), iw.inv.Command(), len(iw.inv.Proof()), len(iw.inv.Nonce()), iw.dlg.Audience(), iw.dlg.IsValidNow(), iw.inv.IsValidNow())
